@@ -21,6 +21,7 @@
   on the prior content `z` of its output).
 -/
 import SpqProofs.Properties.C08
+import SpqProofs.Properties.C09
 namespace Spq.C13
 open Spq Heap C08
 variable {α : Type}
@@ -273,6 +274,34 @@ theorem rotate_inplace_kernels (o : Ops α) (nn : Nat) (p : Int) (h h2 : Heap α
   have := ha' i i hi hj
   have hne : ¬ res' + i * rsl' = a' + i * asl' := by omega
   simp [rotLimb, hi, hne]
+
+
+/-! ### closed forms: the kernel hypotheses `hRotInplace` / `hAutInplace` discharged by C09
+    (in-place rotation = out-of-place rotation for every `nn` and `p`; in-place automorphism = out-of-place
+    automorphism for every `nn = 2^t`, `t ≤ 64`, and odd `p`, independent of the prior output content) -/
+
+/-- `vec_znx_rotate(p, res, res)` equals the call with a separate output buffer — no kernel hypothesis -/
+theorem rotate_inplace_closed (o : Ops α) (nn : Nat) (p : Int) (h h2 : Heap α) (res rsz rsl asz res' rsl' a' asl' : Nat)
+    (hsl : nn ≤ rsl) (hres : InBounds nn h.mem.size res rsz rsl)
+    (hsl' : nn ≤ rsl') (hres' : InBounds nn h2.mem.size res' rsz rsl') (ha' : Sep nn res' rsz rsl' a' asz asl')
+    (sa : SameSrc o.zero nn rsz h.mem res asz rsl h2.mem a' asl') :
+    ∀ i c, i < rsz → c < nn →
+      (VecZnx.rotate o nn p h res rsz rsl res asz rsl).mem[res + i * rsl + c]? =
+      (VecZnx.rotate o nn p h2 res' rsz rsl' a' asz asl').mem[res' + i * rsl' + c]? :=
+  rotate_inplace o nn p h h2 res rsz rsl asz res' rsl' a' asl'
+    (fun x hx => C09.rotate_inplace_eq o nn p x hx) hsl hres hsl' hres' ha' sa
+
+/-- `vec_znx_automorphism(p, res, res)`, `nn = 2^t`, odd `p` — no kernel hypothesis -/
+theorem automorphism_inplace_closed (o : Ops α) (t : Nat) (ht : t ≤ 64) (p : Int) (hp : p % 2 = 1) (h h2 : Heap α)
+    (res rsz rsl asz res' rsl' a' asl' : Nat)
+    (hsl : 2 ^ t ≤ rsl) (hres : InBounds (2 ^ t) h.mem.size res rsz rsl)
+    (hsl' : 2 ^ t ≤ rsl') (hres' : InBounds (2 ^ t) h2.mem.size res' rsz rsl') (ha' : Sep (2 ^ t) res' rsz rsl' a' asz asl')
+    (sa : SameSrc o.zero (2 ^ t) rsz h.mem res asz rsl h2.mem a' asl') :
+    ∀ i c, i < rsz → c < 2 ^ t →
+      (VecZnx.automorphism o (2 ^ t) p h res rsz rsl res asz rsl).mem[res + i * rsl + c]? =
+      (VecZnx.automorphism o (2 ^ t) p h2 res' rsz rsl' a' asz asl').mem[res' + i * rsl' + c]? :=
+  automorphism_inplace o (2 ^ t) p h h2 res rsz rsl asz res' rsl' a' asl'
+    (fun x z hx hz => C09.autom_inplace_eq o t ht p hp x z hx hz) hsl hres hsl' hres' ha' sa
 
 /-! ### big-coefficient variants (stride `nn` on big operands) -/
 
